@@ -665,6 +665,19 @@ pub fn run(args: &Args) {
     if let Some(p) = &args.replay {
         let v: Value = serde_json::from_str(&std::fs::read_to_string(p).unwrap()).unwrap();
         let c = &v["case"];
+        if c["kind"] == "c16-big" {
+            let nch = c["chars"].as_u64().unwrap() as usize;
+            let limit = c["limit"].as_u64().unwrap() as usize;
+            let text: String = std::iter::repeat('あ').take(nch).collect::<String>() + "。い";
+            let out = run_impl(&text, limit, None);
+            println!("{} x 'あ' + '。い', window {}: get_eos {:?}, ranges {:?} {}", nch, limit, out.eos, out.ranges, out.note);
+            let id = sink.case_rust_only(c.clone(), true);
+            if out.ranges.is_none() {
+                sink.fail(id, &out.note, "");
+            }
+            sink.finish();
+            return;
+        }
         let text = c["text"].as_str().unwrap().to_string();
         let limit = c["limit"].as_u64().unwrap() as usize;
         let lex: Option<Vec<String>> = c["lexicon"].as_array().map(|a| a.iter().map(|w| w.as_str().unwrap().to_string()).collect());
@@ -680,6 +693,18 @@ pub fn run(args: &Args) {
     for (t, l, lex) in corpus() {
         one_case(&mut sink, &t, l, &lex, false);
         sink.tag("corpus");
+    }
+    // windows far beyond the default: implementation only (too large for the Coq evaluation); the regex engine's
+    // backtrack limit must not turn them into an error / panic
+    for (nch, limit) in [(350_000usize, usize::MAX), (350_000, 349_999), (400_000, 1_000_000)] {
+        let text: String = std::iter::repeat('あ').take(nch).collect::<String>() + "。い";
+        let out = run_impl(&text, limit, None);
+        let want = if limit > nch { Some(vec![(0, 3 * nch + 3), (3 * nch + 3, 3 * nch + 6)]) } else { Some(vec![(0, 3 * nch + 6)]) };
+        let id = sink.case_rust_only(json!({"kind": "c16-big", "chars": nch, "limit": limit}), true);
+        sink.tag("huge_window_rust_only");
+        if out.ranges != want {
+            sink.fail(id, &format!("{} x 'あ' + '。い' with window {}: expected ranges {:?}, got {:?} {}", nch, limit, want, out.ranges, out.note), "");
+        }
     }
     let n = args.n(1300, 30000);
     let nlong = args.n(4, 40);
@@ -710,6 +735,15 @@ pub fn run(args: &Args) {
 
 /// development aid: reference matcher vs implementation on many inputs, no Coq side
 fn explore(args: &Args, n: usize) {
+    if std::env::var("C16_BIG").is_ok() {
+        for (nch, limit) in [(300_000usize, usize::MAX), (1_100_000, usize::MAX), (1_100_000, 4096), (2_000_000, 1_500_000)] {
+            let text: String = std::iter::repeat('あ').take(nch).collect::<String>() + "。い";
+            let t0 = std::time::Instant::now();
+            let out = run_impl(&text, limit, None);
+            println!("big: {} chars limit {} -> eos {:?} ranges {:?} note {:?} ({:?})", nch, limit, out.eos, out.ranges.map(|r| r.len()), out.note, t0.elapsed());
+        }
+        return;
+    }
     let mut rng = Rng::new(args.seed);
     let mut bad = 0;
     for k in 0..n {
